@@ -4,6 +4,7 @@ import Zc.Proofs.Response
 import Zc.Proofs.ResponseComplete
 import Zc.Proofs.HostLive
 import Zc.GenFacts.FnQueue
+import Zc.GenFacts.FnQueueRun
 /-! # C12 — reply timing: jitter, aggregation, one-second protection, truncated queries
 
 Numbers in the statements (20, 120, 500, 1000, 1020, 1200, 400) come from the English property;
@@ -1044,11 +1045,19 @@ theorem C12_jitter_from_arrival_refuted : ¬ C12_jitter_from_arrival_full := by
 `zc.async_send` returned effects); `GenFacts/FnQueue.lean` proves that the `Queue` model above computes what those bodies
 compute.  **What this transports**: the container operations of the model (`Queue.add`, `Queue.removeRecords`, `Queue.popReady`) are the
 translated bodies, along every sequence of calls (`C12_queue_is_source`), so an edit of one of the four bodies that changes what it
-computes breaks a named lemma of `FnQueue` at stage P.  **What it does not**: the window theorems above are stated over the
-hand-written runs (`QRun`/`HRun`, the host's scheduling of `async_ready`); no lemma here re-states them over `FnQueue.runGen`, so they
-are theorems about the translated source only through the reader's composition of the two (same operations, same order). -/
+computes breaks a named lemma of `FnQueue` at stage P.  **Along every legal run** (`Run`, the event-loop axioms on the queue's timer):
+`GenFacts/FnQueueRun.lean` drives the *generated* queue with the run's events (`runGenEv`: per event one translated `async_add` /
+`async_ready` / `async_remove_answers`) and proves it never raises, stays the model's queue and sends exactly the run's batches at the
+run's instants (`run_source`); hence the `_source` twins below — `C12_window_source`, `C12_window_aggregate_source`,
+`C12_window_protected_source`, `C12_on_wire_source` (+ the two queues) speak about the batches the translated code sends.
+`C12_aggregated_on_wire_source` / `C12_protected_on_wire_source`: the `async_add` that `handle_assembled_query` performs for a classified
+record and what the queue does afterwards are translated calls (the dicts handed over are dicts: `asyncResponse_wf`).
+**What it does not**: the `HRun`-level theorems (`C12_host_*`) compose the two queues with the listener and the classification inside the
+hand-written dispatcher `Host.step`; each of its queue steps is a `Queue.add` / `ready` / `removeRecords`, i.e. a translated call by
+`C12_queue_is_source`, its listener steps and its classification are the translated bodies by `C16_*_source` / `C11_response_is_source`,
+but no host-level run over the generated components together is built here. -/
 section Tie
-open Zc.Py Zc.GenFn.Queue Zc.GenFacts.FnQueue
+open Zc.Py Zc.GenFn.Queue Zc.GenFacts.FnQueue _root_.Zc.GenFacts.FnQueueRun
 
 /-- **The model queue is the translated queue, along every history of calls.**  For any sequence of `async_add` (with any draw
 and loop time), `async_ready` (clock reading = loop time, as in the model), `_remove_answers_from_queue` and `async_remove_answers`
@@ -1072,6 +1081,136 @@ example :
     ∧ (runModel outQP [.add 1000 [(1, [])] 100 1000, .add 1010 [(2, [7])] 20 1010, .ready 1100] {}).2
       = [QEffect.callAt 1100, QEffect.send [(1, []), (2, [7])]] := by
   decide
+
+/-- **Every legal run, in the translated code.**  The generated queue (constructed with the queue's two delays), driven by the
+run's events — each an `async_add`, an `async_ready` at the armed instant, or an `async_remove_answers` — never raises, ends as the
+model's queue, and the batches it hands to `async_send`, with the instants of the calls, are exactly the run's `outs` -/
+theorem C12_run_is_source {p : QP} {c0 : Int} {evs : List QEv} {q' : Queue} {c' : Int} {outs : List (Int × Dict)}
+    (h : Run p {} c0 evs q' c' outs) (hwf : ∀ e ∈ evs, evWF e) :
+    ∃ s', runGenEv evs (MulticastOutgoingQueue.init () p.addl p.agg) = .ok (s', outs) ∧ s'.queue = q'.groups.map strip := by
+  obtain ⟨s', h1, h2, _⟩ := run_source h hwf (s := MulticastOutgoingQueue.init () p.addl p.agg) (q := {})
+    ⟨rfl, fun g hg => by cases hg⟩ rfl
+  exact ⟨s', h1, h2.groups⟩
+
+/-- **C12_window, for the batches the translated code sends** along any legal run -/
+theorem C12_window_source {p : QP} (hp : p.ok) {c0 : Int} {evs : List QEv} {q' : Queue} {c' : Int} {outs : List (Int × Dict)}
+    (h : Run p {} c0 evs q' c' outs) (hwf : ∀ e ∈ evs, evWF e) :
+    ∃ s', runGenEv evs (MulticastOutgoingQueue.init () p.addl p.agg) = .ok (s', outs)
+      ∧ ∀ o ∈ outs, o.2.keys.Nodup ∧ ∀ r ∈ o.2.keys, ∃ a ∈ addsOf evs,
+          r ∈ a.keys ∧ a.clock ≤ o.1 ∧ a.now + 20 + p.addl ≤ o.1 ∧ o.1 ≤ a.clock + p.agg + p.addl := by
+  obtain ⟨s', h1, _⟩ := C12_run_is_source h hwf
+  exact ⟨s', h1, C12_window hp h⟩
+
+/-- the aggregation queue of the translated code (`MulticastOutgoingQueue(zc, 0, 500)`): 20 ms … 500 ms -/
+theorem C12_window_aggregate_source {c0 : Int} {evs : List QEv} {q' : Queue} {c' : Int} {outs : List (Int × Dict)}
+    (h : Run outQP {} c0 evs q' c' outs) (hwf : ∀ e ∈ evs, evWF e) :
+    ∃ s', runGenEv evs (MulticastOutgoingQueue.init () outQP.addl outQP.agg) = .ok (s', outs)
+      ∧ ∀ o ∈ outs, ∀ r ∈ o.2.keys, ∃ a ∈ addsOf evs, r ∈ a.keys ∧ a.clock ≤ o.1 ∧ a.now + 20 ≤ o.1 ∧ o.1 ≤ a.clock + 500 := by
+  obtain ⟨s', h1, _⟩ := C12_run_is_source h hwf
+  exact ⟨s', h1, C12_window_aggregate h⟩
+
+/-- the protected queue of the translated code (`MulticastOutgoingQueue(zc, 1000, 200)`): 1020 ms … 1200 ms -/
+theorem C12_window_protected_source {c0 : Int} {evs : List QEv} {q' : Queue} {c' : Int} {outs : List (Int × Dict)}
+    (h : Run delayQP {} c0 evs q' c' outs) (hwf : ∀ e ∈ evs, evWF e) :
+    ∃ s', runGenEv evs (MulticastOutgoingQueue.init () delayQP.addl delayQP.agg) = .ok (s', outs)
+      ∧ ∀ o ∈ outs, ∀ r ∈ o.2.keys, ∃ a ∈ addsOf evs, r ∈ a.keys ∧ a.clock ≤ o.1 ∧ a.now + 1020 ≤ o.1 ∧ o.1 ≤ a.clock + 1200 := by
+  obtain ⟨s', h1, _⟩ := C12_run_is_source h hwf
+  exact ⟨s', h1, C12_window_protected h⟩
+
+/-- **C12_on_wire, for the translated code**: after any legal prefix, an `async_add` of the generated queue is followed by an
+`async_send` of each of its records inside the window — the batches are the ones the translated `async_ready` hands over -/
+theorem C12_on_wire_source {p : QP} (hp : p.ok) {c0 : Int} {pre : List QEv} {q1 : Queue} {c1 : Int} {outs1 : List (Int × Dict)}
+    (hpre : Run p {} c0 pre q1 c1 outs1) (hwf1 : ∀ e ∈ pre, evWF e)
+    {c now draw : Int} {answers : Dict} {post : List QEv} {q' : Queue} {c' : Int} {outs : List (Int × Dict)}
+    (hrun : Run p q1 c1 (.add c now draw answers :: post) q' c' outs) (hwf2 : ∀ e ∈ QEv.add c now draw answers :: post, evWF e) :
+    ∃ s1 s', runGenEv pre (MulticastOutgoingQueue.init () p.addl p.agg) = .ok (s1, outs1)
+      ∧ runGenEv (.add c now draw answers :: post) s1 = .ok (s', outs)
+      ∧ ∀ r ∈ answers.keys,
+          (∃ o ∈ outs, r ∈ o.2.keys ∧ c ≤ o.1 ∧ o.1 ≤ c + p.agg + p.addl) ∨ c' ≤ c + p.agg + p.addl ∨ withdrawnIn post r := by
+  obtain ⟨s1, h1, hr1, hq1⟩ := run_source hpre hwf1 (s := MulticastOutgoingQueue.init () p.addl p.agg) (q := {})
+    ⟨rfl, fun g hg => by cases hg⟩ rfl
+  obtain ⟨s', h2, _, _⟩ := run_source hrun hwf2 hr1 hq1
+  exact ⟨s1, s', h1, h2, C12_on_wire hp hpre hrun⟩
+
+/-- … within 500 ms for the aggregation queue, 1.2 s for the protected queue -/
+theorem C12_on_wire_queues_source {c0 : Int} {pre : List QEv} {q1 : Queue} {c1 : Int} {outs1 : List (Int × Dict)}
+    {c now draw : Int} {answers : Dict} {post : List QEv} {q' : Queue} {c' : Int} {outs : List (Int × Dict)}
+    (hwf1 : ∀ e ∈ pre, evWF e) (hwf2 : ∀ e ∈ QEv.add c now draw answers :: post, evWF e) :
+    (Run outQP {} c0 pre q1 c1 outs1 → Run outQP q1 c1 (.add c now draw answers :: post) q' c' outs →
+      ∃ s1 s', runGenEv pre (MulticastOutgoingQueue.init () outQP.addl outQP.agg) = .ok (s1, outs1)
+        ∧ runGenEv (.add c now draw answers :: post) s1 = .ok (s', outs)
+        ∧ ∀ r ∈ answers.keys, (∃ o ∈ outs, r ∈ o.2.keys ∧ c ≤ o.1 ∧ o.1 ≤ c + 500) ∨ c' ≤ c + 500 ∨ withdrawnIn post r)
+    ∧ (Run delayQP {} c0 pre q1 c1 outs1 → Run delayQP q1 c1 (.add c now draw answers :: post) q' c' outs →
+      ∃ s1 s', runGenEv pre (MulticastOutgoingQueue.init () delayQP.addl delayQP.agg) = .ok (s1, outs1)
+        ∧ runGenEv (.add c now draw answers :: post) s1 = .ok (s', outs)
+        ∧ ∀ r ∈ answers.keys, (∃ o ∈ outs, r ∈ o.2.keys ∧ c ≤ o.1 ∧ o.1 ≤ c + 1200) ∨ c' ≤ c + 1200 ∨ withdrawnIn post r) := by
+  constructor
+  · intro hpre hrun
+    obtain ⟨s1, s', h1, h2, _⟩ := C12_on_wire_source outQP_ok hpre hwf1 hrun hwf2
+    exact ⟨s1, s', h1, h2, C12_on_wire_aggregate hpre hrun⟩
+  · intro hpre hrun
+    obtain ⟨s1, s', h1, h2, _⟩ := C12_on_wire_source delayQP_ok hpre hwf1 hrun hwf2
+    exact ⟨s1, s', h1, h2, C12_on_wire_protected hpre hrun⟩
+
+/-- **From classification to the wire, through the translated queue (aggregated).**  The `async_add` that `handle_assembled_query`
+performs on `out_queue` for a record classified "aggregate", and everything the queue does afterwards, are calls of the translated
+functions: the generated queue after the prefix is the host's `outQ`, and the batch carrying the record is one it hands to `async_send` -/
+theorem C12_aggregated_on_wire_source {h : Host} {clock : Int} {pkts : List Pkt} {addr port : Nat} {seen : SeenMap} {draws : List Int}
+    {r : StepOut} {rest : List Int} (hs : h.assemble clock pkts addr port seen draws = .ok (r, rest))
+    {qa : QA} (hqa : asyncResponse pkts (Gen.Reply.ucast_source port) seen = some qa) {rid : RecId} (hr : rid ∈ qa.mcastAgg.keys)
+    {c0 c1 : Int} {pre : List QEv} {outs1 : List (Int × Dict)} (hpre : Run outQP {} c0 pre h.outQ c1 outs1) (hwf1 : ∀ e ∈ pre, evWF e)
+    (hclock : c1 ≤ clock) (hstamp : ∀ first, pkts.head? = some first → first.now ≤ clock)
+    (hdue : ∀ d, h.outQ.timer = some d → clock ≤ d)
+    {post : List QEv} {q' : Queue} {c' : Int} {outs : List (Int × Dict)} (hpost : Run outQP r.host.outQ clock post q' c' outs)
+    (hwf2 : ∀ e ∈ post, evWF e) :
+    ∃ first d s1 s', pkts.head? = some first
+      ∧ runGenEv pre (MulticastOutgoingQueue.init () outQP.addl outQP.agg) = .ok (s1, outs1)
+      ∧ runGenEv (.add clock first.now d qa.mcastAgg :: post) s1 = .ok (s', outs)
+      ∧ ((∃ o ∈ outs, rid ∈ o.2.keys ∧ clock ≤ o.1 ∧ o.1 ≤ clock + 500) ∨ c' ≤ clock + 500 ∨ withdrawnIn post rid) := by
+  obtain ⟨first, hf, _, _, hq1, _⟩ := assemble_spec hs hqa
+  obtain ⟨d, hd1, hd2, heq⟩ := hq1.2 (Dict.isEmpty_false_of_mem hr)
+  rw [heq] at hpost
+  have hrun : Run outQP h.outQ c1 (.add clock first.now d qa.mcastAgg :: post) q' c' ([] ++ outs) :=
+    Run.cons (e := .add clock first.now d qa.mcastAgg) ⟨hclock, hstamp first hf, hd1, hd2, hdue⟩ hpost
+  rw [List.nil_append] at hrun
+  obtain ⟨s1, h1, hr1, hq1'⟩ := run_source hpre hwf1 (s := MulticastOutgoingQueue.init () outQP.addl outQP.agg) (q := {})
+    ⟨rfl, fun g hg => by cases hg⟩ rfl
+  have hwfadd : ∀ e ∈ QEv.add clock first.now d qa.mcastAgg :: post, evWF e := by
+    intro e he
+    rcases List.mem_cons.1 he with rfl | he
+    · exact (asyncResponse_wf hqa).2.2.1
+    · exact hwf2 e he
+  obtain ⟨s', h2, _, _⟩ := run_source hrun hwfadd hr1 hq1'
+  exact ⟨first, d, s1, s', hf, h1, h2, by simpa using C12_on_wire_aggregate hpre hrun rid hr⟩
+
+/-- **From classification to the wire, through the translated queue (protected)** -/
+theorem C12_protected_on_wire_source {h : Host} {clock : Int} {pkts : List Pkt} {addr port : Nat} {seen : SeenMap} {draws : List Int}
+    {r : StepOut} {rest : List Int} (hs : h.assemble clock pkts addr port seen draws = .ok (r, rest))
+    {qa : QA} (hqa : asyncResponse pkts (Gen.Reply.ucast_source port) seen = some qa) {rid : RecId} (hr : rid ∈ qa.mcastLast.keys)
+    {c0 c1 : Int} {pre : List QEv} {outs1 : List (Int × Dict)} (hpre : Run delayQP {} c0 pre h.delayQ c1 outs1) (hwf1 : ∀ e ∈ pre, evWF e)
+    (hclock : c1 ≤ clock) (hstamp : ∀ first, pkts.head? = some first → first.now ≤ clock)
+    (hdue : ∀ d, h.delayQ.timer = some d → clock ≤ d)
+    {post : List QEv} {q' : Queue} {c' : Int} {outs : List (Int × Dict)} (hpost : Run delayQP r.host.delayQ clock post q' c' outs)
+    (hwf2 : ∀ e ∈ post, evWF e) :
+    ∃ first d s1 s', pkts.head? = some first
+      ∧ runGenEv pre (MulticastOutgoingQueue.init () delayQP.addl delayQP.agg) = .ok (s1, outs1)
+      ∧ runGenEv (.add clock first.now d qa.mcastLast :: post) s1 = .ok (s', outs)
+      ∧ ((∃ o ∈ outs, rid ∈ o.2.keys ∧ clock ≤ o.1 ∧ o.1 ≤ clock + 1200) ∨ c' ≤ clock + 1200 ∨ withdrawnIn post rid) := by
+  obtain ⟨first, hf, _, _, _, hq2⟩ := assemble_spec hs hqa
+  obtain ⟨d, hd1, hd2, heq⟩ := hq2.2 (Dict.isEmpty_false_of_mem hr)
+  rw [heq] at hpost
+  have hrun : Run delayQP h.delayQ c1 (.add clock first.now d qa.mcastLast :: post) q' c' ([] ++ outs) :=
+    Run.cons (e := .add clock first.now d qa.mcastLast) ⟨hclock, hstamp first hf, hd1, hd2, hdue⟩ hpost
+  rw [List.nil_append] at hrun
+  obtain ⟨s1, h1, hr1, hq1'⟩ := run_source hpre hwf1 (s := MulticastOutgoingQueue.init () delayQP.addl delayQP.agg) (q := {})
+    ⟨rfl, fun g hg => by cases hg⟩ rfl
+  have hwfadd : ∀ e ∈ QEv.add clock first.now d qa.mcastLast :: post, evWF e := by
+    intro e he
+    rcases List.mem_cons.1 he with rfl | he
+    · exact (asyncResponse_wf hqa).2.2.2
+    · exact hwf2 e he
+  obtain ⟨s', h2, _, _⟩ := run_source hrun hwfadd hr1 hq1'
+  exact ⟨first, d, s1, s', hf, h1, h2, by simpa using C12_on_wire_protected hpre hrun rid hr⟩
 
 end Tie
 
